@@ -7,6 +7,8 @@ one block per zone with the min/low/high watermarks in pages; ``vmstat_show``:
 ``name value`` lines).  Fields psutil does not use are rendered too, with
 figures of their own, so that a confused column or prefix match is visible."""
 
+import errno
+
 ABSENT = -1
 PROC = "/proc"
 
@@ -131,8 +133,13 @@ def install(w, inp, S=1):
         w.files.pop(p, None)
     if rec["zone"]:
         w.files[PROC + "/zoneinfo"] = render_zoneinfo(rec["lows"], S)
+    w.deny.pop(PROC + "/vmstat", None)
     if rec["vmstat"]:
         w.files[PROC + "/vmstat"] = render_vmstat(rec["pin"], rec["pout"], S)
+    elif (S + len(rec.get("lows", ()))) % 2:
+        # not missing but masked (a container runtime, an LSM): present in the listing, refused when opened
+        w.files[PROC + "/vmstat"] = render_vmstat(7, 8, S)
+        w.deny[PROC + "/vmstat"] = errno.EACCES
     tot, free, unit = rec["sys"]
     # struct sysinfo: totalram, freeram, bufferram, sharedram, totalswap, freeswap, mem_unit
     w.sysinfo = (7301, 7302, 7303, 7304, tot * S, free * S, unit)
